@@ -78,6 +78,7 @@ func (rc *RdbCmd) Print(rdbPath string, cfg *config.RdbCmdPrint) error {
 	parseOpts := []rdb.RdbParseOption{
 		rdb.WithTargetRedisVersion("7.2"), // @TODO version
 		rdb.WithFunctionExists("flush"),
+		rdb.WithStreamIdleConsumers(),
 	}
 	if cfg.ModuleAuxPolicy == config.ModuleAuxPolicyFail {
 		parseOpts = append(parseOpts, rdb.WithFailOnModuleAux())
